@@ -448,15 +448,18 @@ func (t TypeHandle) HasType(c ast.Constant) bool {
 	if !ok {
 		return false // This never happens.
 	}
-	switch tpe.Function {
-	case PairType:
+	// Compare by name: a type expression that was parsed from source carries the
+	// number of its arguments as arity, the constructors with a variable number
+	// of arguments are declared with arity -1.
+	switch tpe.Function.Symbol {
+	case PairType.Symbol:
 		fst, snd, err := c.PairValue()
 		if err != nil {
 			return false
 		}
 		return TypeHandle{tpe.Args[0], t.ctx}.HasType(fst) &&
 			TypeHandle{tpe.Args[1], t.ctx}.HasType(snd)
-	case ListType:
+	case ListType.Symbol:
 		elementType := TypeHandle{tpe.Args[0], t.ctx}
 		shapeErr, err := c.ListValues(func(e ast.Constant) error {
 			if !elementType.HasType(e) {
@@ -473,9 +476,9 @@ func (t TypeHandle) HasType(c ast.Constant) bool {
 			return false
 		}
 		return true
-	case TupleType:
+	case TupleType.Symbol:
 		return TypeHandle{expandTupleType(tpe.Args), t.ctx}.HasType(c)
-	case MapType:
+	case MapType.Symbol:
 		if c.IsMapNil() {
 			return true
 		}
@@ -490,7 +493,7 @@ func (t TypeHandle) HasType(c ast.Constant) bool {
 			return nil
 		})
 		return e == nil && err == nil
-	case StructType:
+	case StructType.Symbol:
 		if c.IsStructNil() {
 			return len(tpe.Args) == 0
 		}
@@ -528,7 +531,7 @@ func (t TypeHandle) HasType(c ast.Constant) bool {
 			return nil
 		})
 		return e == nil && err == nil && len(fieldTpeMap) == len(seen)
-	case UnionType:
+	case UnionType.Symbol:
 		for _, arg := range tpe.Args {
 			alt := TypeHandle{arg, t.ctx}
 			if alt.HasType(c) {
@@ -536,10 +539,10 @@ func (t TypeHandle) HasType(c ast.Constant) bool {
 			}
 		}
 		return false
-	case SingletonType:
+	case SingletonType.Symbol:
 		d := tpe.Args[0]
 		return c.Equals(d)
-	case TaggedUnionType:
+	case TaggedUnionType.Symbol:
 		expanded, err := ExpandTaggedUnionType(tpe)
 		if err != nil {
 			return false
